@@ -176,7 +176,7 @@ Section Knot.
     let cw := wrap_cls DEF c' in
     nodupb (map sname (cslots c')) && nodupb (map sname (cslots cw)) &&
     forallb (slot_ok vr P2) (cslots cw) &&
-    forallb (fun s => ustr_eqb (sname s) DEF || kind_avoids (skind s) || (ustr_eqb (sname s) ext_key && is_dnone s)) (cslots c') &&
+    forallb (fun s => ustr_eqb (sname s) DEF || kind_avoids MARK (skind s) || (ustr_eqb (sname s) ext_key && is_dnone s)) (cslots c') &&
     match slot_of c' DEF with Some sd => is_dnone sd | None => false end &&
     match slot_of cw DEF with
     | Some sd => is_dnone sd && match skind sd with KEmbedded k => ustr_eqb k MARK | _ => false end
@@ -404,7 +404,7 @@ Section Knot.
       NoDup (map sname (cslots c')) /\ NoDup (map sname (cslots (wrap_cls DEF c'))) /\
       forallb (slot_ok vr P2) (cslots (wrap_cls DEF c')) = true /\
       (forall sl, In sl (cslots c') -> sname sl <> DEF ->
-         kind_avoids (skind sl) = true \/ (sname sl = ext_key /\ sdef sl = DNone)) /\
+         kind_avoids MARK (skind sl) = true \/ (sname sl = ext_key /\ sdef sl = DNone)) /\
       (exists sd, slot_of c' DEF = Some sd /\ sdef sd = DNone) /\
       (exists sd, slot_of (wrap_cls DEF c') DEF = Some sd /\ sdef sd = DNone /\ skind sd = KEmbedded MARK) /\
       (exists sd, slot_of (wrap_cls DEF c') DEFTYPE = Some sd /\ sdef sd = DNone /\ skind sd = KString).
